@@ -35,6 +35,8 @@ func Scenarios(thorough bool) map[string]*Scenario {
 	// custom (Lua) provider: Istio VirtualService, configured in the Rollout (Q30) or through a TrafficRouting CR (Q22)
 	m["Q30"] = &Scenario{ID: "Q30", Kind: "CloneSet", Style: "partition", Replicas: 2, Traffic: "custom", Grace: 1,
 		Steps: []StepSpec{{Replicas: "1", Traffic: "20%"}, {Replicas: "100%"}}}
+	m["Q31"] = &Scenario{ID: "Q31", Kind: "CloneSet", Style: "partition", Replicas: 2, Traffic: "custom", CustomDR: true, Grace: 1,
+		Steps: []StepSpec{{Replicas: "1", Traffic: "20%"}, {Replicas: "100%"}}}
 	m["Q22"] = &Scenario{ID: "Q22", Kind: "CloneSet", Style: "partition", Replicas: 2, Traffic: "custom", TRCR: true, Grace: 1,
 		Steps: []StepSpec{{Replicas: "1"}, {Replicas: "2"}}}
 	// CloneSet partition + Gateway API HTTPRoute
@@ -130,7 +132,7 @@ func Plans(thorough bool) map[string]PropertyPlan {
 func plans0(thorough bool) map[string]PropertyPlan {
 	// every workload kind / style and every traffic provider built into E1; the partition-style Deployment (whose
 	// advanced Deployment controller makes each transition expensive) only in the thorough tier
-	c06Scenarios := []string{"Q02", "Q01b", "Q03", "Q05", "Q08", "Q10", "Q20", "Q22", "Q30"}
+	c06Scenarios := []string{"Q02", "Q01b", "Q03", "Q05", "Q08", "Q10", "Q20", "Q22", "Q31"}
 	if thorough {
 		c06Scenarios = append(c06Scenarios, "Q07", "Q01r", "Q04")
 	}
@@ -155,7 +157,7 @@ func plans0(thorough bool) map[string]PropertyPlan {
 			FreeQueues: true, StateCap: capQ, Monitors: func(w *World, sc *Scenario) []Monitor { return []Monitor{VoidMonitor{}} }},
 		"C10": {Scenarios: []string{"Q02", "Q05", "Q08"}, Actions: []string{"rollback", "release3", "jump(1)"}, NoCostActions: []string{"jump(1)"}, MaxUser: 1, Disturbances: []string{"crash", "midcrash"}, MaxDisturb: 1,
 			FreeQueues: true, StateCap: capQ, Monitors: func(w *World, sc *Scenario) []Monitor { return []Monitor{RollbackOrderMonitor{}} }},
-		"C05": {Scenarios: []string{"Q02", "Q01b", "Q03", "Q05", "Q07", "Q07r", "Q08", "Q10", "Q30"}, Actions: []string{"rollback", "release3", "disable", "deleteRollout", "editPlanMore", "deleteCanary"}, MaxUser: u,
+		"C05": {Scenarios: []string{"Q02", "Q01b", "Q03", "Q05", "Q07", "Q07r", "Q08", "Q10", "Q31"}, Actions: []string{"rollback", "release3", "disable", "deleteRollout", "editPlanMore", "deleteCanary", "deleteVS"}, MaxUser: u,
 			FreeQueues: true, StateCap: capQ, Monitors: func(w *World, sc *Scenario) []Monitor { return []Monitor{&ExitMonitor{Base: CaptureBaseline(w, sc)}} }},
 		"C18": {Scenarios: []string{"Q02", "Q01b", "Q05", "Q20", "Q22", "Q30"}, Actions: []string{"deleteRollout", "deleteWorkload", "deleteTR"}, MaxUser: 2, Disturbances: []string{"crash", "midcrash", "error"}, MaxDisturb: 1,
 			FreeQueues: true, StateCap: capQ, Monitors: func(w *World, sc *Scenario) []Monitor {
